@@ -236,6 +236,37 @@ class Crate:
         self.impls = raw["impls"]
         self.traits = {t["path"]: t for t in raw["traits"]}
         self._fold_const_arrays()
+        self._normalise_qualified_method_calls()
+
+    def _normalise_qualified_method_calls(self):
+        """`Type::method(recv, a, b)` on an inherent method of a workspace type that takes `self` is the same call as `recv.method(a, b)`;
+        the fully qualified spelling is rewritten to the method-call node, so that rules see one form (refactor r4-A3)."""
+        from lib import hir as H
+        takes_self = {}
+        for b in self.bodies:
+            if b.get("dk") == "AssocFn" and b.get("params"):
+                p0 = b["params"][0]
+                while p0.get("k") in ("pref", "pderef"):
+                    p0 = p0["pat"]
+                takes_self[b["key"]] = p0.get("k") == "bind" and p0.get("name") == "self" and not b.get("impl_trait")
+        if not any(takes_self.values()):
+            return
+        for b in self.bodies:
+            if not isinstance(b.get("body"), dict):
+                continue
+            for n in H.walk(b["body"]):
+                if n.get("k") != "call" or not n.get("args"):
+                    continue
+                c = n.get("callee") or {}
+                key = c.get("inst_key") or c.get("key")
+                if c.get("dk") == "AssocFn" and takes_self.get(key):
+                    args = n["args"]
+                    n["k"] = "mcall"
+                    n["name"] = self.by_key[key].get("name") or key.rsplit("::", 1)[-1]
+                    n["recv"] = args[0]
+                    n["args"] = args[1:]
+                    n["qualified"] = True
+                    n.pop("f", None)
 
     def _fold_const_arrays(self):
         """`const TABLE: [&str; 2] = ["a", "b"]; .. TABLE[0] ..`: the driver evaluates scalar and string consts only; an array const whose
